@@ -20,7 +20,7 @@ namespace VerifModel.C16
 open VerifModel XR
 open VerifModel.Diagram
 open VerifModel.Spec
-open VerifModel.Spec.Diagram (Conv edgePairsL inBin binCount StrictInc lastOf)
+open VerifModel.Spec.Diagram (Conv edgePairsL edgePairsF inBin binCount binCountF StrictInc lastOf)
 set_option linter.unusedSimpArgs false
 set_option linter.unusedVariables false
 
@@ -74,14 +74,27 @@ private theorem memHO_fin (e : Rat × Rat × Bool) (x : Rat) :
     memHO (fin e.1) (fin e.2.1) (fin x) = inBin .ho e x := by
   simp [memHO, inBin, XR.ge, XR.le, XR.lt, Bool.decide_and]
 
-private theorem memOC_fin (e : Rat × Rat × Bool) (x : Rat) :
-    memOC (fin e.1) (fin e.2.1) (fin x) = inBin .oc e x := by
-  simp [memOC, inBin, XR.gt, XR.le, XR.lt, Bool.decide_and]
-
 private theorem memHist_fin (e : Rat × Rat × Bool) (x : Rat) :
     memHist (fin e.1, fin e.2.1, e.2.2) (fin x) = inBin .hist e x := by
   rcases e with ⟨lo, hi, l⟩
   cases l <;> simp [memHist, inBin, XR.ge, XR.le, XR.lt, Bool.decide_and] <;> grind
+
+private theorem memOCF_fin (e : Rat × Rat × Bool) (x : Rat) :
+    memOCF (fin e.1, fin e.2.1, e.2.2) (fin x) = inBin .ocf e x := by
+  rcases e with ⟨lo, hi, l⟩
+  cases l <;> simp [memOCF, inBin, XR.ge, XR.gt, XR.le, XR.lt, Bool.decide_and] <;> grind
+
+private theorem firstPairs_fin (edges : List Rat) :
+    firstPairs (edges.map fin) = (edgePairsF edges).map fun e => (fin e.1, fin e.2.1, e.2.2) := by
+  cases edges with
+  | nil => rfl
+  | cons a rest =>
+    cases rest with
+    | nil => rfl
+    | cons b rest =>
+      have h := histPairs_fin (b :: rest)
+      simp only [List.map_cons] at h
+      simp only [List.map_cons, firstPairs, edgePairsF, h, List.map_map, Function.comp_def]
 
 /-! ## 1. Every value of the binned range falls in exactly one bin -/
 
@@ -164,6 +177,28 @@ theorem C16_partition_hist (a b : Rat) (rest : List Rat) (h : StrictInc (a :: b 
       by_cases h4 : x ≤ lastOf c rest <;> simp [h1, h2, h3, h4] <;> linarith [h.1, h.2.1]
 
 
+/-- bins (e_i, e_{i+1}] with the first one closed on the left: exactly one bin iff first ≤ x ≤ last -/
+theorem C16_partition_ocf (a b : Rat) (rest : List Rat) (h : StrictInc (a :: b :: rest)) (x : Rat) :
+    binCountF .ocf (a :: b :: rest) x = if a ≤ x ∧ x ≤ lastOf b rest then 1 else 0 := by
+  simp only [StrictInc] at h
+  have hl := le_last b rest h.2
+  have hb := C16_partition_oc b rest h.2 x
+  have hrest : (((edgePairsL (b :: rest)).map fun e => ((e.1, e.2.1, false) : Rat × Rat × Bool)).filter
+      fun e => inBin .ocf e x).length = binCount .oc (b :: rest) x := by
+    rw [List.filter_map, List.length_map]
+    unfold binCount
+    congr 1; apply List.filter_congr; intro e _; simp [inBin]
+  have key : binCountF .ocf (a :: b :: rest) x =
+      (if inBin .ocf (a, b, true) x then 1 else 0) + binCount .oc (b :: rest) x := by
+    unfold binCountF
+    simp only [edgePairsF, List.filter_cons]
+    split <;> simp [hrest, Nat.add_comm]
+  rw [key, hb]
+  simp only [inBin]
+  have hab := h.1
+  simp only [inBin, decide_eq_true_eq]
+  grind
+
 /-! ### the model's bins are the Spec's bins -/
 
 private theorem count_ho (edges : List Rat) (x : Rat) :
@@ -172,93 +207,99 @@ private theorem count_ho (edges : List Rat) (x : Rat) :
   unfold binCount
   congr 1; apply List.filter_congr; intro e _; simp [memHO_fin]
 
-private theorem count_oc (edges : List Rat) (x : Rat) :
-    ((pairs (edges.map fin)).filter fun e => memOC e.1 e.2 (fin x)).length = binCount .oc edges x := by
-  rw [pairs_fin, List.filter_map, List.length_map]
-  unfold binCount
-  congr 1; apply List.filter_congr; intro e _; simp [memOC_fin]
-
 private theorem count_hist (edges : List Rat) (x : Rat) :
     ((histPairs (edges.map fin)).filter fun e => memHist e (fin x)).length = binCount .hist edges x := by
   rw [histPairs_fin, List.filter_map, List.length_map]
   unfold binCount
   congr 1; apply List.filter_congr; intro e _; simp [memHist_fin]
 
+private theorem count_ocf (edges : List Rat) (x : Rat) :
+    ((firstPairs (edges.map fin)).filter fun e => memOCF e (fin x)).length = binCountF .ocf edges x := by
+  rw [firstPairs_fin, List.filter_map, List.length_map]
+  unfold binCountF
+  congr 1; apply List.filter_congr; intro e _; simp [memOCF_fin]
+
 /-- the number of model bins that hold a given case is the number of edge pairs whose test it passes -/
-private theorem binsBy_count {α : Type} (mem : XR → XR → XR → Bool) (edges : List XR)
+private theorem binsLast_count {α : Type} (edges : List XR)
     (key : α → XR) (cs : List α) (c : α) [∀ b : List α, Decidable (c ∈ b)] (hc : c ∈ cs) :
-    ((binsBy mem edges key cs).filter fun b => decide (c ∈ b)).length =
-      ((pairs edges).filter fun e => mem e.1 e.2 (key c)).length := by
-  unfold binsBy
+    ((binsLast edges key cs).filter fun bn => decide (c ∈ bn)).length =
+      ((histPairs edges).filter fun e => memHist e (key c)).length := by
+  unfold binsLast
   rw [List.filter_map, List.length_map]
   congr 1; apply List.filter_congr; intro e _; simp [List.mem_filter, hc]
 
-/-- Half-open binning `e_i ≤ v < e_{i+1}` (Reliability, InvReliability, IgnContrib, Scatter quantiles,
-util.bin, as the code has it): a case whose value v satisfies first ≤ v < last is in exactly one bin.
+private theorem binsFirst_count {α : Type} (edges : List XR)
+    (key : α → XR) (cs : List α) (c : α) [∀ b : List α, Decidable (c ∈ b)] (hc : c ∈ cs) :
+    ((binsFirst edges key cs).filter fun bn => decide (c ∈ bn)).length =
+      ((firstPairs edges).filter fun e => memOCF e (key c)).length := by
+  unfold binsFirst
+  rw [List.filter_map, List.length_map]
+  congr 1; apply List.filter_congr; intro e _; simp [List.mem_filter, hc]
 
-FULL STATEMENT (what "every valid case falls in exactly one bin" needs), NOT provable for the code's
-convention:   first ≤ v ≤ last  →  exactly one bin.
-It fails for v = last edge (e.g. a forecast probability of exactly 1): see the witnesses below. -/
-theorem C16_bins_partition_ho_partial {α : Type} (key : α → XR) (a : Rat) (rest : List Rat)
-    (h : StrictInc (a :: rest)) (cs : List α) (c : α) [∀ b : List α, Decidable (c ∈ b)] (hc : c ∈ cs) (x : Rat) (hx : key c = fin x)
-    (hlo : a ≤ x) (hhi : x < lastOf a rest) :
-    ((binsBy memHO ((a :: rest).map fin) key cs).filter fun b => decide (c ∈ b)).length = 1 := by
-  rw [binsBy_count _ _ _ _ _ hc, hx, count_ho, C16_partition_ho a rest h]
+/-- Half-open binning `e_i ≤ v < e_{i+1}` with the LAST bin closed on the right (Reliability,
+InvReliability, IgnContrib, Scatter quantiles, util.bin, as the code has it): EVERY case whose value v
+lies in the binned range first ≤ v ≤ last is in exactly one bin (full statement; before the last bin was
+closed, v = last edge — e.g. a forecast probability of exactly 1 — was in no bin). -/
+theorem C16_bins_partition_last {α : Type} (key : α → XR) (a b : Rat) (rest : List Rat)
+    (h : StrictInc (a :: b :: rest)) (cs : List α) (c : α) [∀ b : List α, Decidable (c ∈ b)] (hc : c ∈ cs)
+    (x : Rat) (hx : key c = fin x) (hlo : a ≤ x) (hhi : x ≤ lastOf b rest) :
+    ((binsLast ((a :: b :: rest).map fin) key cs).filter fun bn => decide (c ∈ bn)).length = 1 := by
+  rw [binsLast_count _ _ _ _ hc, hx, count_hist, C16_partition_hist a b rest h]
   simp [hlo, hhi]
 
-/-- … and a case with value outside [first, last) is in no bin (in particular v = last). -/
-theorem C16_bins_ho_outside {α : Type} (key : α → XR) (a : Rat) (rest : List Rat)
-    (h : StrictInc (a :: rest)) (cs : List α) (c : α) [∀ b : List α, Decidable (c ∈ b)] (hc : c ∈ cs) (x : Rat) (hx : key c = fin x)
-    (hout : x < a ∨ lastOf a rest ≤ x) :
-    ((binsBy memHO ((a :: rest).map fin) key cs).filter fun b => decide (c ∈ b)).length = 0 := by
-  rw [binsBy_count _ _ _ _ _ hc, hx, count_ho, C16_partition_ho a rest h]
-  have : ¬ (a ≤ x ∧ x < lastOf a rest) := by
+/-- … and a case with value outside [first, last] is in no bin. -/
+theorem C16_bins_last_outside {α : Type} (key : α → XR) (a b : Rat) (rest : List Rat)
+    (h : StrictInc (a :: b :: rest)) (cs : List α) (c : α) [∀ b : List α, Decidable (c ∈ b)] (hc : c ∈ cs)
+    (x : Rat) (hx : key c = fin x) (hout : x < a ∨ lastOf b rest < x) :
+    ((binsLast ((a :: b :: rest).map fin) key cs).filter fun bn => decide (c ∈ bn)).length = 0 := by
+  rw [binsLast_count _ _ _ _ hc, hx, count_hist, C16_partition_hist a b rest h]
+  have : ¬ (a ≤ x ∧ x ≤ lastOf b rest) := by
     intro hh; rcases hout with h1 | h1 <;> linarith [hh.1, hh.2]
   simp [this]
 
 /-- Reliability: the bins of `reliabilitySeries` (cases = (observed 0/1, probability)). -/
-theorem C16_bins_partition_reliability_partial (a : Rat) (rest : List Rat) (h : StrictInc (a :: rest))
+theorem C16_bins_partition_reliability (a b : Rat) (rest : List Rat) (h : StrictInc (a :: b :: rest))
     (cs : List (XR × XR)) (c : XR × XR) (hc : c ∈ cs) (p : Rat) (hp : c.2 = fin p)
-    (hlo : a ≤ p) (hhi : p < lastOf a rest) :
-    ((binsBy memHO ((a :: rest).map fin) (·.2) cs).filter fun b => decide (c ∈ b)).length = 1 :=
-  C16_bins_partition_ho_partial (·.2) a rest h cs c hc p hp hlo hhi
+    (hlo : a ≤ p) (hhi : p ≤ lastOf b rest) :
+    ((binsLast ((a :: b :: rest).map fin) (·.2) cs).filter fun bn => decide (c ∈ bn)).length = 1 :=
+  C16_bins_partition_last (·.2) a b rest h cs c hc p hp hlo hhi
 
 /-- InvReliability uses the same bins, on the forecast quantile value. -/
-theorem C16_bins_partition_invreliability_partial (a : Rat) (rest : List Rat) (h : StrictInc (a :: rest))
+theorem C16_bins_partition_invreliability (a b : Rat) (rest : List Rat) (h : StrictInc (a :: b :: rest))
     (obs q : Vec) (c : XR × XR) (hc : c ∈ invrelCases obs q) (v : Rat) (hv : c.2 = fin v)
-    (hlo : a ≤ v) (hhi : v < lastOf a rest) :
-    ((binsBy memHO ((a :: rest).map fin) (·.2) (invrelCases obs q)).filter fun b => decide (c ∈ b)).length = 1 :=
-  C16_bins_partition_ho_partial (·.2) a rest h _ c hc v hv hlo hhi
+    (hlo : a ≤ v) (hhi : v ≤ lastOf b rest) :
+    ((binsLast ((a :: b :: rest).map fin) (·.2) (invrelCases obs q)).filter fun bn => decide (c ∈ bn)).length = 1 :=
+  C16_bins_partition_last (·.2) a b rest h _ c hc v hv hlo hhi
 
 /-- IgnContrib-style binning (N equal bins on [0,1], the same comparison) and the conditional
 quantiles of Scatter (bins on the forecast). -/
-theorem C16_bins_partition_igncontrib_partial (a : Rat) (rest : List Rat) (h : StrictInc (a :: rest))
+theorem C16_bins_partition_igncontrib (a b : Rat) (rest : List Rat) (h : StrictInc (a :: b :: rest))
     (cs : List (XR × XR)) (c : XR × XR) (hc : c ∈ cs) (p : Rat) (hp : c.2 = fin p)
-    (hlo : a ≤ p) (hhi : p < lastOf a rest) :
-    ((binsBy memHO ((a :: rest).map fin) (·.2) cs).filter fun b => decide (c ∈ b)).length = 1 :=
-  C16_bins_partition_ho_partial (·.2) a rest h cs c hc p hp hlo hhi
+    (hlo : a ≤ p) (hhi : p ≤ lastOf b rest) :
+    ((binsLast ((a :: b :: rest).map fin) (·.2) cs).filter fun bn => decide (c ∈ bn)).length = 1 :=
+  C16_bins_partition_last (·.2) a b rest h cs c hc p hp hlo hhi
 
-theorem C16_bins_partition_scatter_partial (a : Rat) (rest : List Rat) (h : StrictInc (a :: rest))
+theorem C16_bins_partition_scatter (a b : Rat) (rest : List Rat) (h : StrictInc (a :: b :: rest))
     (obs fcst : Vec) (c : XR × XR) (hc : c ∈ obs.zip fcst) (f : Rat) (hf : c.2 = fin f)
-    (hlo : a ≤ f) (hhi : f < lastOf a rest) :
-    ((binsBy memHO ((a :: rest).map fin) (·.2) (obs.zip fcst)).filter fun b => decide (c ∈ b)).length = 1 :=
-  C16_bins_partition_ho_partial (·.2) a rest h _ c hc f hf hlo hhi
+    (hlo : a ≤ f) (hhi : f ≤ lastOf b rest) :
+    ((binsLast ((a :: b :: rest).map fin) (·.2) (obs.zip fcst)).filter fun bn => decide (c ∈ bn)).length = 1 :=
+  C16_bins_partition_last (·.2) a b rest h _ c hc f hf hlo hhi
 
 /-- `util.bin` bins on x. -/
-theorem C16_bins_partition_utilbin_partial (a : Rat) (rest : List Rat) (h : StrictInc (a :: rest))
+theorem C16_bins_partition_utilbin (a b : Rat) (rest : List Rat) (h : StrictInc (a :: b :: rest))
     (x y : Vec) (c : XR × XR) (hc : c ∈ x.zip y) (v : Rat) (hv : c.1 = fin v)
-    (hlo : a ≤ v) (hhi : v < lastOf a rest) :
-    ((binsBy memHO ((a :: rest).map fin) (·.1) (x.zip y)).filter fun b => decide (c ∈ b)).length = 1 :=
-  C16_bins_partition_ho_partial (·.1) a rest h _ c hc v hv hlo hhi
+    (hlo : a ≤ v) (hhi : v ≤ lastOf b rest) :
+    ((binsLast ((a :: b :: rest).map fin) (·.1) (x.zip y)).filter fun bn => decide (c ∈ bn)).length = 1 :=
+  C16_bins_partition_last (·.1) a b rest h _ c hc v hv hlo hhi
 
 /-- Discrimination tests each probability against every edge pair with the same comparison. -/
-theorem C16_bins_partition_discrimination_partial (a : Rat) (rest : List Rat) (h : StrictInc (a :: rest))
-    (p : Rat) (hlo : a ≤ p) (hhi : p < lastOf a rest) :
-    ((pairs ((a :: rest).map fin)).filter fun e => memHO e.1 e.2 (fin p)).length = 1 := by
-  rw [count_ho, C16_partition_ho a rest h]; simp [hlo, hhi]
+theorem C16_bins_partition_discrimination (a b : Rat) (rest : List Rat) (h : StrictInc (a :: b :: rest))
+    (p : Rat) (hlo : a ≤ p) (hhi : p ≤ lastOf b rest) :
+    ((histPairs ((a :: b :: rest).map fin)).filter fun e => memHist e (fin p)).length = 1 := by
+  rw [count_hist, C16_partition_hist a b rest h]; simp [hlo, hhi]
 
-/-- BsDecomp (BsRel/BsRes): the last edge is 1.001, so EVERY probability in [0, 1] is in exactly one
-bin — the full statement holds here. -/
+/-- BsDecomp (BsRel/BsRes): plain half-open bins, but the last edge is 1.001, so EVERY probability in
+[0, 1] is in exactly one bin — the full statement holds here too. -/
 theorem C16_bins_partition_bsdecomp (p : Rat) (h0 : 0 ≤ p) (h1 : p ≤ 1) :
     ((pairs bsEdges).filter fun e => memHO e.1 e.2 (fin p)).length = 1 := by
   have he : bsEdges = ([0, 1/10, 2/10, 3/10, 4/10, 5/10, 6/10, 7/10, 8/10, 9/10, 1001/1000] : List Rat).map fin := by
@@ -269,22 +310,22 @@ theorem C16_bins_partition_bsdecomp (p : Rat) (h0 : 0 ≤ p) (h1 : p ≤ 1) :
     rw [if_pos ⟨h0, this⟩]
   · simp only [StrictInc]; norm_num
 
-/-- Bins `e_{i-1} < v ≤ e_i` (SpreadSkill; also Change and the impact view): a value with
-first < v ≤ last is in exactly one bin.
-FULL STATEMENT (not provable): first ≤ v ≤ last.  A value equal to the first edge is in no bin. -/
-theorem C16_bins_partition_oc_partial {α : Type} (key : α → XR) (a : Rat) (rest : List Rat)
-    (h : StrictInc (a :: rest)) (cs : List α) (c : α) [∀ b : List α, Decidable (c ∈ b)] (hc : c ∈ cs) (x : Rat) (hx : key c = fin x)
-    (hlo : a < x) (hhi : x ≤ lastOf a rest) :
-    ((binsBy memOC ((a :: rest).map fin) key cs).filter fun b => decide (c ∈ b)).length = 1 := by
-  rw [binsBy_count _ _ _ _ _ hc, hx, count_oc, C16_partition_oc a rest h]
+/-- Bins `e_{i-1} < v ≤ e_i` with the FIRST bin closed on the left (SpreadSkill; Change bins the same
+way): EVERY value with first ≤ v ≤ last is in exactly one bin (full statement; before the first bin was
+closed, a value equal to the first edge was in no bin). -/
+theorem C16_bins_partition_first {α : Type} (key : α → XR) (a b : Rat) (rest : List Rat)
+    (h : StrictInc (a :: b :: rest)) (cs : List α) (c : α) [∀ b : List α, Decidable (c ∈ b)] (hc : c ∈ cs)
+    (x : Rat) (hx : key c = fin x) (hlo : a ≤ x) (hhi : x ≤ lastOf b rest) :
+    ((binsFirst ((a :: b :: rest).map fin) key cs).filter fun bn => decide (c ∈ bn)).length = 1 := by
+  rw [binsFirst_count _ _ _ _ hc, hx, count_ocf, C16_partition_ocf a b rest h]
   simp [hlo, hhi]
 
 /-- SpreadSkill: cases = (spread, squared error), binned on the spread. -/
-theorem C16_bins_partition_spreadskill_partial (a : Rat) (rest : List Rat) (h : StrictInc (a :: rest))
+theorem C16_bins_partition_spreadskill (a b : Rat) (rest : List Rat) (h : StrictInc (a :: b :: rest))
     (cs : List (XR × XR)) (c : XR × XR) (hc : c ∈ cs) (s : Rat) (hs : c.1 = fin s)
-    (hlo : a < s) (hhi : s ≤ lastOf a rest) :
-    ((binsBy memOC ((a :: rest).map fin) (·.1) cs).filter fun b => decide (c ∈ b)).length = 1 :=
-  C16_bins_partition_oc_partial (·.1) a rest h cs c hc s hs hlo hhi
+    (hlo : a ≤ s) (hhi : s ≤ lastOf b rest) :
+    ((binsFirst ((a :: b :: rest).map fin) (·.1) cs).filter fun bn => decide (c ∈ bn)).length = 1 :=
+  C16_bins_partition_first (·.1) a b rest h cs c hc s hs hlo hhi
 
 /-- PitHist (np.histogram): EVERY PIT value of [first, last] is in exactly one bin (full statement). -/
 theorem C16_bins_partition_pithist (a b : Rat) (rest : List Rat) (h : StrictInc (a :: b :: rest))
@@ -303,24 +344,25 @@ theorem C16_bins_partition_hist (a : Rat) (rest : List Rat) (h : C07.StrictInc (
   congr 1; apply List.filter_congr; intro I _
   simp [Interval.within, XR.isNan]
 
-/-! ### witnesses: a value equal to the end of the range is in no bin -/
+/-! ### formerly lost cases: a value equal to the end of the range is now in exactly one bin -/
 
-/-- Reliability, default edges: a forecast probability of exactly 1 is in no bin. -/
-theorem C16_reliability_p1_in_no_bin :
-    ((pairs reliabilityDefaultEdges).filter fun e => memHO e.1 e.2 (fin 1)).length = 0 := by decide +kernel
+/-- Reliability, default edges: a forecast probability of exactly 1 is in the last bin. -/
+example : ((histPairs reliabilityDefaultEdges).filter fun e => memHist e (fin 1)).length = 1 := by decide +kernel
 
 /-- Discrimination / IgnContrib / util.bin with edges 0, 0.1, …, 1: likewise. -/
-theorem C16_tenths_p1_in_no_bin :
-    ((pairs tenths).filter fun e => memHO e.1 e.2 (fin 1)).length = 0 := by decide +kernel
+example : ((histPairs tenths).filter fun e => memHist e (fin 1)).length = 1 := by decide +kernel
 
-/-- the drawn reliability counts lose the case: 3 valid cases, counts sum to 2 -/
-theorem C16_reliability_counts_lose_p1 :
-    natSum ((reliabilitySeries 5 reliabilityDefaultEdges [(fin 1, fin 1), (fin 0, fin (1/2)), (fin 1, fin (7/8))]).map (·.2.2)) = 2 := by
+/-- the drawn reliability counts keep the case with p = 1: 3 valid cases, counts sum to 3 -/
+example :
+    natSum ((reliabilitySeries 5 reliabilityDefaultEdges [(fin 1, fin 1), (fin 0, fin (1/2)), (fin 1, fin (7/8))]).map (·.2.2)) = 3 := by
   decide +kernel
 
-/-- SpreadSkill with thresholds 0, 1, 2: a spread of exactly 0 is in no bin. -/
-theorem C16_spreadskill_first_in_no_bin :
-    ((pairs (([0, 1, 2] : List Rat).map fin)).filter fun e => memOC e.1 e.2 (fin 0)).length = 0 := by decide +kernel
+/-- util.bin with edges 0, 1/2, 1 and x = 1/4, 1, 1/2, 1: the two values equal to the last edge are counted -/
+example : (utilBin (([0, 1/2, 1] : List Rat).map fin) (([1/4, 1, 1/2, 1] : List Rat).map fin)
+    (([1, 2, 3, 0] : List Rat).map fin)).2.2 = [1, 3] := by decide +kernel
+
+/-- SpreadSkill with thresholds 0, 1, 2: a spread of exactly 0 is in the first bin. -/
+example : ((firstPairs (([0, 1, 2] : List Rat).map fin)).filter fun e => memOCF e (fin 0)).length = 1 := by decide +kernel
 
 
 /-! ## 2. Bin counts add up to the number of cases in the binned range -/
@@ -364,47 +406,48 @@ private theorem natSum_congr {α : Type} (cs : List α) (f g : α → Nat) (h : 
     simp only [List.map_cons, natSum_cons]
     rw [h c (by simp), ih (fun c hc => h c (by simp [hc]))]
 
-/-- Half-open bins: the bin counts sum to the number of cases with first ≤ v < last.
-(FULL STATEMENT, not provable for this convention: … with first ≤ v ≤ last.) -/
-theorem C16_counts_total_ho_partial {α : Type} (k : α → Rat) (a : Rat) (rest : List Rat)
-    (h : StrictInc (a :: rest)) (cs : List α) :
-    natSum ((binsBy memHO ((a :: rest).map fin) (fun c => fin (k c)) cs).map List.length) =
-      (cs.filter fun c => decide (a ≤ k c ∧ k c < lastOf a rest)).length := by
-  unfold binsBy
+/-- Half-open bins with the last one closed: the bin counts sum to the number of cases with
+first ≤ v ≤ last — every case of the binned range is counted (full statement). -/
+theorem C16_counts_total_last {α : Type} (k : α → Rat) (a b : Rat) (rest : List Rat)
+    (h : StrictInc (a :: b :: rest)) (cs : List α) :
+    natSum ((binsLast ((a :: b :: rest).map fin) (fun c => fin (k c)) cs).map List.length) =
+      (cs.filter fun c => decide (a ≤ k c ∧ k c ≤ lastOf b rest)).length := by
+  unfold binsLast
   rw [List.map_map]
-  have := double_count (pairs ((a :: rest).map fin)) cs (fun e c => memHO e.1 e.2 (fin (k c)))
+  have := double_count (histPairs ((a :: b :: rest).map fin)) cs (fun e c => memHist e (fin (k c)))
   simp only [Function.comp_def]
   rw [this, ← natSum_ite]
   apply natSum_congr
   intro c _
-  rw [count_ho, C16_partition_ho a rest h]
-  by_cases hc : a ≤ k c ∧ k c < lastOf a rest <;> simp [hc]
+  rw [count_hist, C16_partition_hist a b rest h]
+  by_cases hc : a ≤ k c ∧ k c ≤ lastOf b rest <;> simp [hc]
 
 /-- Reliability / InvReliability: the counts of the drawn series (third components) add up to the
-number of cases whose probability p satisfies first ≤ p < last — cases with p = last edge are lost. -/
-theorem C16_counts_total_reliability_partial (m : Nat) (a : Rat) (rest : List Rat) (h : StrictInc (a :: rest))
+number of cases whose probability p satisfies first ≤ p ≤ last — no case of the range is lost. -/
+theorem C16_counts_total_reliability (m : Nat) (a b : Rat) (rest : List Rat) (h : StrictInc (a :: b :: rest))
     (cs : List (XR × Rat)) :
-    natSum ((reliabilitySeries m ((a :: rest).map fin) (cs.map fun c => (c.1, fin c.2))).map (·.2.2)) =
-      (cs.filter fun c => decide (a ≤ c.2 ∧ c.2 < lastOf a rest)).length := by
-  have := C16_counts_total_ho_partial (fun c : XR × Rat => c.2) a rest h cs
+    natSum ((reliabilitySeries m ((a :: b :: rest).map fin) (cs.map fun c => (c.1, fin c.2))).map (·.2.2)) =
+      (cs.filter fun c => decide (a ≤ c.2 ∧ c.2 ≤ lastOf b rest)).length := by
+  have := C16_counts_total_last (fun c : XR × Rat => c.2) a b rest h cs
   rw [← this]
-  unfold reliabilitySeries binsBy
+  unfold reliabilitySeries binsLast
   simp only [List.map_map, Function.comp_def, List.filter_map, List.length_map]
 
-/-- bins (e_{i-1}, e_i]: the counts sum to the number of cases with first < v ≤ last -/
-theorem C16_counts_total_oc_partial {α : Type} (k : α → Rat) (a : Rat) (rest : List Rat)
-    (h : StrictInc (a :: rest)) (cs : List α) :
-    natSum ((binsBy memOC ((a :: rest).map fin) (fun c => fin (k c)) cs).map List.length) =
-      (cs.filter fun c => decide (a < k c ∧ k c ≤ lastOf a rest)).length := by
-  unfold binsBy
+/-- bins (e_{i-1}, e_i] with the first one closed: the counts sum to the number of cases with
+first ≤ v ≤ last (full statement) -/
+theorem C16_counts_total_first {α : Type} (k : α → Rat) (a b : Rat) (rest : List Rat)
+    (h : StrictInc (a :: b :: rest)) (cs : List α) :
+    natSum ((binsFirst ((a :: b :: rest).map fin) (fun c => fin (k c)) cs).map List.length) =
+      (cs.filter fun c => decide (a ≤ k c ∧ k c ≤ lastOf b rest)).length := by
+  unfold binsFirst
   rw [List.map_map]
-  have := double_count (pairs ((a :: rest).map fin)) cs (fun e c => memOC e.1 e.2 (fin (k c)))
+  have := double_count (firstPairs ((a :: b :: rest).map fin)) cs (fun e c => memOCF e (fin (k c)))
   simp only [Function.comp_def]
   rw [this, ← natSum_ite]
   apply natSum_congr
   intro c _
-  rw [count_oc, C16_partition_oc a rest h]
-  by_cases hc : a < k c ∧ k c ≤ lastOf a rest <;> simp [hc]
+  rw [count_ocf, C16_partition_ocf a b rest h]
+  by_cases hc : a ≤ k c ∧ k c ≤ lastOf b rest <;> simp [hc]
 
 /-- PitHist: the histogram counts add up to the number of PIT values in [first, last] — all of them. -/
 theorem C16_counts_total_pithist (a b : Rat) (rest : List Rat) (h : StrictInc (a :: b :: rest)) (v : List Rat) :
@@ -591,18 +634,31 @@ private theorem binsBy_ho_emb {α β : Type} (emb : α → β) (keyX : β → XR
   intro a _
   simp [hk, memHO_fin]
 
-private theorem binsBy_oc_emb {α β : Type} (emb : α → β) (keyX : β → XR) (k : α → Rat)
+private theorem binsLast_emb {α β : Type} (emb : α → β) (keyX : β → XR) (k : α → Rat)
     (hk : ∀ a, keyX (emb a) = fin (k a)) (edges : List Rat) (cs : List α) :
-    binsBy memOC (edges.map fin) keyX (cs.map emb) = (Diagram.bins .oc edges k cs).map (List.map emb) := by
-  unfold binsBy Diagram.bins
-  rw [pairs_fin, List.map_map, List.map_map]
+    binsLast (edges.map fin) keyX (cs.map emb) = (Diagram.bins .hist edges k cs).map (List.map emb) := by
+  unfold binsLast Diagram.bins
+  rw [histPairs_fin, List.map_map, List.map_map]
   apply List.map_congr_left
   intro e _
   simp only [Function.comp_def, List.filter_map]
   congr 1
   apply List.filter_congr
   intro a _
-  simp [hk, memOC_fin]
+  simp [hk, memHist_fin]
+
+private theorem binsFirst_emb {α β : Type} (emb : α → β) (keyX : β → XR) (k : α → Rat)
+    (hk : ∀ a, keyX (emb a) = fin (k a)) (edges : List Rat) (cs : List α) :
+    binsFirst (edges.map fin) keyX (cs.map emb) = (Diagram.binsF .ocf edges k cs).map (List.map emb) := by
+  unfold binsFirst Diagram.binsF
+  rw [firstPairs_fin, List.map_map, List.map_map]
+  apply List.map_congr_left
+  intro e _
+  simp only [Function.comp_def, List.filter_map]
+  congr 1
+  apply List.filter_congr
+  intro a _
+  simp [hk, memOCF_fin]
 
 /-- a case (event observed?, forecast value) as the model sees it -/
 def embRel (c : Bool × Rat) : XR × XR := (fin (if c.1 then 1 else 0), fin c.2)
@@ -616,12 +672,12 @@ def dispRel (m : Nat) (r : Option Rat × Option Rat × Nat) : XR × XR × Nat :=
    if 0 < r.2.2 ∧ m ≤ r.2.2 then toXR r.2.1 else nan,
    r.2.2)
 
-/-- Reliability (m = 5) and InvReliability (m = 2): per probability bin the drawn point is (mean
-forecast probability, relative frequency of the event), the inset shows the number of cases. -/
+/-- Reliability (m = 5) and InvReliability (m = 2): per probability bin (half-open, the last one closed) the
+drawn point is (mean forecast probability, relative frequency of the event), the inset shows the number of cases. -/
 theorem C16_def_reliability (m : Nat) (edges : List Rat) (cs : List (Bool × Rat)) :
-    reliabilitySeries m (edges.map fin) (cs.map embRel) = (Diagram.reliability .ho edges cs).map (dispRel m) := by
+    reliabilitySeries m (edges.map fin) (cs.map embRel) = (Diagram.reliability .hist edges cs).map (dispRel m) := by
   unfold reliabilitySeries Diagram.reliability
-  rw [binsBy_ho_emb embRel (·.2) (·.2) (fun _ => rfl), List.map_map, List.map_map]
+  rw [binsLast_emb embRel (·.2) (·.2) (fun _ => rfl), List.map_map, List.map_map]
   apply List.map_congr_left
   intro b _
   simp only [Function.comp_def, dispRel, Diagram.reliabilityBin, List.length_map, List.map_map]
@@ -654,19 +710,20 @@ theorem C16_invrelCases (os qs : List Rat) :
 
 theorem C16_def_invreliability (edges : List Rat) (os qs : List Rat) :
     reliabilitySeries 2 (edges.map fin) (invrelCases (os.map fin) (qs.map fin)) =
-      (Diagram.reliability .ho edges ((os.zip qs).map fun c => (decide (c.1 ≤ c.2), c.2))).map (dispRel 2) := by
+      (Diagram.reliability .hist edges ((os.zip qs).map fun c => (decide (c.1 ≤ c.2), c.2))).map (dispRel 2) := by
   rw [C16_invrelCases, C16_def_reliability]
 
-/-- SpreadSkill: per spread bin (t_{i-1}, t_i] the point (mean spread, RMSE); the first plotted point is NaN. -/
+/-- SpreadSkill: per spread bin (t_{i-1}, t_i] (the first one [t_0, t_1]) the point (mean spread, RMSE); the
+first plotted point is NaN. -/
 theorem C16_def_spreadskill (T : Tr) (ths : List Rat) (cs : List (Rat × Rat)) (hsk : ∀ c ∈ cs, 0 ≤ c.2) :
     spreadskillSeries T (ths.map fin) (cs.map fun c => (fin c.1, fin c.2)) =
-      (nan :: (Diagram.bins .oc ths (·.1) cs).map fun b => toXR (Diagram.spreadskillBin T b).1,
-       nan :: (Diagram.bins .oc ths (·.1) cs).map fun b => toXR (Diagram.spreadskillBin T b).2) := by
+      (nan :: (Diagram.binsF .ocf ths (·.1) cs).map fun b => toXR (Diagram.spreadskillBin T b).1,
+       nan :: (Diagram.binsF .ocf ths (·.1) cs).map fun b => toXR (Diagram.spreadskillBin T b).2) := by
   unfold spreadskillSeries
-  rw [binsBy_oc_emb (fun c : Rat × Rat => (fin c.1, fin c.2)) (·.1) (·.1) (fun _ => rfl)]
-  have hmem : ∀ b ∈ Diagram.bins .oc ths (·.1) cs, ∀ c ∈ b, 0 ≤ c.2 := by
+  rw [binsFirst_emb (fun c : Rat × Rat => (fin c.1, fin c.2)) (·.1) (·.1) (fun _ => rfl)]
+  have hmem : ∀ b ∈ Diagram.binsF .ocf ths (·.1) cs, ∀ c ∈ b, 0 ≤ c.2 := by
     intro b hb c hc
-    unfold Diagram.bins at hb
+    unfold Diagram.binsF at hb
     obtain ⟨e, _, rfl⟩ := List.mem_map.mp hb
     exact hsk c (List.mem_filter.mp hc).1
   simp only [List.map_map, Function.comp_def]
@@ -710,13 +767,13 @@ private theorem withinVal_fin (b : BinType) (t u x : Rat) :
 private theorem toXR_mul100 (o : Option Rat) : toXR o * fin 100 = toXR (o.map (· * 100)) := by
   cases o <;> simp [toXR, Cont.toXR]
 
-/-- Discrimination: per probability bin the percentage of the events (cls = true) / non-events
+/-- Discrimination: per probability bin (half-open, the last one closed) the percentage of the events (cls = true) / non-events
 (cls = false) whose forecast probability lies in the bin; NaN when the class is empty. -/
 theorem C16_def_discrimination (edges : List Rat) (cs : List (Bool × Rat)) (cls : Bool) :
     discriminationSeries (edges.map fin) (cs.map embRel) (fin (if cls then 1 else 0)) =
-      (Diagram.discrimination .ho edges cs cls).map toXR := by
+      (Diagram.discrimination .hist edges cs cls).map toXR := by
   unfold discriminationSeries Diagram.discrimination
-  rw [pairs_fin, List.map_map, List.map_map]
+  rw [histPairs_fin, List.map_map, List.map_map]
   have hsel : ((cs.map embRel).filter fun c => XR.eqb c.1 (fin (if cls then 1 else 0))).map (·.2) =
       ((cs.filter fun a => a.1 == cls).map (·.2)).map fin := by
     rw [List.filter_map, List.map_map, List.map_map]
@@ -732,13 +789,13 @@ theorem C16_def_discrimination (edges : List Rat) (cs : List (Bool × Rat)) (cls
   apply List.map_congr_left
   intro e _
   simp only [Function.comp_def, List.map_map]
-  have : ((cs.filter fun a => a.1 == cls).map fun x => boolToXR (memHO (fin e.1) (fin e.2.1) (fin x.2))) =
-      ((cs.filter fun a => a.1 == cls).map fun x => inBin .ho e x.2).map fun b => fin (if b then 1 else 0) := by
+  have : ((cs.filter fun a => a.1 == cls).map fun x => boolToXR (memHist (fin e.1, fin e.2.1, e.2.2) (fin x.2))) =
+      ((cs.filter fun a => a.1 == cls).map fun x => inBin .hist e x.2).map fun b => fin (if b then 1 else 0) := by
     rw [List.map_map]
     apply List.map_congr_left
     intro x _
-    simp only [Function.comp_def, memHO_fin, boolToXR]
-    cases inBin .ho e x.2 <;> rfl
+    simp only [Function.comp_def, memHist_fin, boolToXR]
+    cases inBin .hist e x.2 <;> rfl
   rw [this, boolMean, toXR_mul100]
 
 /-- an optional ROC point as the two plotted coordinates -/
@@ -840,12 +897,24 @@ theorem C16_def_pithist (edges v : List Rat) :
   simp only [histCounts_fin]
   exact percent_fin _
 
-/-- PitHist bar POSITIONS.  Definition: the bar of bin k spans [e_k, e_{k+1}].
-NOT what is drawn: `mpl.bar(edges[:-1], …)` centres the bar on e_k (matplotlib ≥ 2 default
-`align='center'`), so it spans [e_k − w/2, e_k + w/2].  Witness (default ten bins): the first bar
-starts at −1/20 instead of 0 and the last one ends at 19/20 instead of 1. -/
-theorem C16_pithist_bar_position_witness :
-    (pithistBars tenths []).1.head? = some (fin (-1/20)) ∧ (pithistBars tenths []).1.getLast? = some (fin (17/20)) := by
+/-- PitHist bar POSITIONS: the bar of bin k spans [e_k, e_{k+1}] — its left side is e_k and left side +
+width is e_{k+1}, for any edges (`mpl.bar(edges[:-1], y, width=np.diff(edges), align='edge')`). -/
+theorem C16_pithist_bar_position (edges v : List Rat) :
+    (pithistBars (edges.map fin) (v.map fin)).1 = (edgePairsL edges).map (fun e => fin e.1) ∧
+    List.zipWith (· + ·) (pithistBars (edges.map fin) (v.map fin)).1 (pithistBars (edges.map fin) (v.map fin)).2.2 =
+      (edgePairsL edges).map (fun e => fin e.2.1) := by
+  unfold pithistBars
+  simp only [pairs_fin, List.map_map, Function.comp_def, fin_sub]
+  refine ⟨trivial, ?_⟩
+  induction edgePairsL edges with
+  | nil => rfl
+  | cons e es ih =>
+    simp only [List.map_cons, List.zipWith_cons_cons, ih, fin_add]
+    congr 2; ring
+
+/-- default ten bins: the first bar starts at 0 and the last one ends at 1 (formerly −1/20 and 19/20) -/
+example : (pithistBars tenths []).1.head? = some (fin 0) ∧
+    (List.zipWith (· + ·) (pithistBars tenths []).1 (pithistBars tenths []).2.2).getLast? = some (fin 1) := by
   decide +kernel
 
 private theorem ratPairs_fin (ts : List Rat) :
@@ -975,40 +1044,36 @@ private theorem zip_fin_sub (os fs : List Rat) :
   have := Vec.sub_ofRats os fs
   simpa [Vec.ofRats] using this
 
-/-- Error decomposition, PARTIAL.  The x-coordinate is CRMSE = √(RMSE² − ME²); the y-coordinate the
-code draws is mean(obs − fcst), i.e. MINUS the systematic error ME = mean(fcst − obs) (= verif's `bias`)
-that the axis label names.
-FULL STATEMENT (not provable): errorSeries … = (fin crmse, fin me). -/
-theorem C16_def_error_partial (T : Tr) (os fs : List Rat) (hne : os ≠ []) (hl : os.length = fs.length)
+/-- Error decomposition: the x-coordinate is CRMSE = √(RMSE² − ME²) and the y-coordinate is the systematic
+error ME = mean(fcst − obs) (= verif's `bias`) that the axis label names (full statement). -/
+theorem C16_def_error (T : Tr) (os fs : List Rat) (hne : os ≠ []) (hl : os.length = fs.length)
     (crmse me : Rat) (hs : Diagram.errorDecomp T os fs = some (crmse, me))
     (h1 : 0 ≤ (Stats.mean (List.zipWith (fun o f => (o - f) * (o - f)) os fs)).getD 0)
     (h2 : 0 ≤ T.sqrtQ ((Stats.mean (List.zipWith (fun o f => (o - f) * (o - f)) os fs)).getD 0) *
             T.sqrtQ ((Stats.mean (List.zipWith (fun o f => (o - f) * (o - f)) os fs)).getD 0) - me * me) :
-    errorSeries T (os.map fin) (fs.map fin) = (fin crmse, fin (-me)) := by
-  have hlen : (List.zipWith (fun o f => o - f) os fs).length ≠ 0 := by
-    simp [List.length_zipWith, ← hl]; exact hne
-  have hlen2 : (List.zipWith (fun o f => f - o) os fs).length ≠ 0 := by
-    simp [List.length_zipWith, ← hl]; exact hne
-  have hlen3 : (List.zipWith (fun o f => (o - f) * (o - f)) os fs).length ≠ 0 := by
-    simp [List.length_zipWith, ← hl]; exact hne
-  have hneg : Stats.sum (List.zipWith (fun o f => o - f) os fs) = - Stats.sum (List.zipWith (fun o f => f - o) os fs) := by
-    clear hne hl hs h1 h2 hlen hlen2 hlen3
+    errorSeries T (os.map fin) (fs.map fin) = (fin crmse, fin me) := by
+  have hsub : Vec.sub (fs.map fin) (os.map fin) = (List.zipWith (fun o f => f - o) os fs).map fin := by
+    rw [zip_fin_sub]
+    congr 1
+    clear hne hl hs h1 h2
     induction os generalizing fs with
-    | nil => simp [Stats.sum]
+    | nil => cases fs <;> rfl
     | cons o os ih =>
       cases fs with
-      | nil => simp [Stats.sum]
-      | cons f fs => simp only [List.zipWith_cons_cons, Stats.sum, ih fs]; ring
-  have hsq : Vec.mul ((List.zipWith (fun o f => o - f) os fs).map fin) ((List.zipWith (fun o f => o - f) os fs).map fin) =
+      | nil => rfl
+      | cons f fs => simp only [List.zipWith_cons_cons, ih fs]
+  have hsq : Vec.mul ((List.zipWith (fun o f => f - o) os fs).map fin) ((List.zipWith (fun o f => f - o) os fs).map fin) =
       (List.zipWith (fun o f => (o - f) * (o - f)) os fs).map fin := by
     unfold Vec.mul
-    clear hne hl hs h1 h2 hlen hlen2 hlen3 hneg
+    clear hne hl hs h1 h2 hsub
     induction os generalizing fs with
     | nil => simp
     | cons o os ih =>
       cases fs with
       | nil => simp
-      | cons f fs => simpa using ih fs
+      | cons f fs =>
+        simp only [List.zipWith_cons_cons, List.map_cons, fin_mul, ih fs]
+        congr 2; ring
   have hmin : min os.length fs.length ≠ 0 := by
     rw [← hl, Nat.min_self]; exact fun h => hne (List.length_eq_zero_iff.mp h)
   unfold Diagram.errorDecomp at hs
@@ -1016,22 +1081,17 @@ theorem C16_def_error_partial (T : Tr) (os fs : List Rat) (hne : os ≠ []) (hl 
     Prod.mk.injEq, Option.getD_some] at hs h1 h2
   obtain ⟨hcr, hme⟩ := hs
   unfold errorSeries
-  rw [zip_fin_sub]
+  rw [hsub]
   simp only []
   rw [hsq, mean_fin, mean_fin]
   simp only [Stats.mean, List.length_zipWith, hmin, if_false, toXR, Cont.toXR] at h1 h2 ⊢
   rw [Tr.sqrt_fin, if_neg (not_lt.mpr h1)]
   simp only [fin_mul, fin_sub]
-  have hme' : Stats.sum (List.zipWith (fun o f => o - f) os fs) / ((min os.length fs.length : Nat) : Rat) = -me := by
-    rw [← hme, hneg]; ring
-  rw [hme']
-  have : (-me) * (-me) = me * me := by ring
-  rw [this, Tr.sqrt_fin, if_neg (not_lt.mpr h2), ← hme] at *
-  rw [← hcr]
+  rw [hme, Tr.sqrt_fin, if_neg (not_lt.mpr h2), ← hcr, hme]
 
-/-- witness for the sign: obs = 0, fcst = 1 has bias +1, the diagram plots −1 -/
-theorem C16_error_sign_witness (T : Tr) :
-    (errorSeries T [fin 0] [fin 1]).2 = fin (-1) ∧
+/-- obs = 0, fcst = 1 has bias +1 and the diagram plots +1 (formerly −1) -/
+example (T : Tr) :
+    (errorSeries T [fin 0] [fin 1]).2 = fin 1 ∧
     (Diagram.errorDecomp T [0] [1]).map (·.2) = some 1 := by
   constructor
   · simp [errorSeries, Vec.sub, Vec.mean, Vec.sum, Vec.len, XR.ofNat]
@@ -1262,12 +1322,13 @@ def idTr : Tr := ⟨id, id, id, id⟩
 
 example : StrictInc [0, 1/20, 3/20, 1] ∧ binCount .ho [0, 1/20, 3/20, 1] (1/20) = 1 ∧
     binCount .ho [0, 1/20, 3/20, 1] 1 = 0 ∧ binCount .hist [0, 1/20, 3/20, 1] 1 = 1 ∧
-    binCount .oc [0, 1/20, 3/20, 1] 0 = 0 ∧ binCount .oc [0, 1/20, 3/20, 1] 1 = 1 := by
+    binCount .oc [0, 1/20, 3/20, 1] 0 = 0 ∧ binCount .oc [0, 1/20, 3/20, 1] 1 = 1 ∧
+    binCountF .ocf [0, 1/20, 3/20, 1] 0 = 1 ∧ binCountF .ocf [0, 1/20, 3/20, 1] (1/20) = 1 := by
   refine ⟨by simp only [StrictInc]; norm_num, by decide +kernel, by decide +kernel, by decide +kernel,
-    by decide +kernel, by decide +kernel⟩
+    by decide +kernel, by decide +kernel, by decide +kernel, by decide +kernel⟩
 
-example : Diagram.reliability .ho [0, 1/2, 1] [(true, 3/4), (false, 1/4), (true, 1/2), (false, 3/4)] =
-    [(some (1/4), some 0, 1), (some (2/3), some (2/3), 3)] := by decide +kernel
+example : Diagram.reliability .hist [0, 1/2, 1] [(true, 3/4), (false, 1/4), (true, 1/2), (false, 3/4), (true, 1)] =
+    [(some (1/4), some 0, 1), (some (3/4), some (3/4), 4)] := by decide +kernel
 
 example : Diagram.errorDecomp idTr [0, 2] [1, 1] = some (1, 0) := by decide +kernel
 
